@@ -116,6 +116,7 @@ func checkC09(c *Check) {
 	c.rendezvousChannels("C09.5 progress-approved-by-manager", "transitionCh")
 	c.disableEnablePairing("C09.4 recorded-state-current")
 	c.fsmContracts("C09.3 fsm-effects")
+	c.blockingInventory("C09.3 state-loops-keep-listening")
 	c.messageResults("C09.1 type-results")
 	c.specConstants("C09.2 spec-constants", "openMessageType", "updateMessageType", "notificationMessageType", "keepAliveMessageType", "headerLength", "maxMessageLength", "NOTIF_CODE_FSM_ERR", "NOTIF_SUBCODE_RX_UNEXPECTED_MESSAGE_OPENSENT", "NOTIF_SUBCODE_RX_UNEXPECTED_MESSAGE_OPENCONFIRM", "NOTIF_SUBCODE_RX_UNEXPECTED_MESSAGE_ESTABLISHED", "NOTIF_CODE_CEASE", "NOTIF_CODE_HOLD_TIMER_EXPIRED")
 	c.holdTimerRestartDiscipline("C09.5 legal-progress-does-not-block")
